@@ -1,8 +1,8 @@
 package rules
 
 import (
-	"go/constant"
 	"go/ast"
+	"go/constant"
 	"go/token"
 	"go/types"
 	"strings"
@@ -23,6 +23,8 @@ func init() {
 		c17HeaderValueTable(c)
 		c17Preflight(c)
 		c17CorsFirst(c)
+		headerValuesComplete(c, "C17.10")
+		varyAllLines(c, "C17.11")
 	})
 }
 
@@ -408,7 +410,7 @@ func c17CorsTable(c *core.Ctx) {
 		for _, a := range fieldAssigns(u, "cors.varys") {
 			vary = append(vary, app{a.Loc, a.Stmt.Pos(), a.Rhs})
 		}
-		okStar, okFixed, okReflect, okDenied := false, false, false, false
+		okStar, okFixed, okReflect, okDenied := false, false, false, true
 		for _, a := range acao {
 			s, isS := core.ConstString(info, a.val)
 			switch {
@@ -420,12 +422,15 @@ func c17CorsTable(c *core.Ctx) {
 				// the reflected value is the request's Origin header
 				d, _ := u.SingleDef(a.val)
 				okReflect = strings.Contains(core.ExprString(d), `Peek("Origin")`) || strings.Contains(core.ExprString(d), `Get("Origin")`)
-			case g.GuardedBy(a.loc, notStr):
-				okDenied = isS && s != "*"
+			default:
+				// the header names an origin (or '*') only when the policy allows
+				// it: the refusing edge sets no Access-Control-Allow-Origin at all
+				// (fix f59ecdc: it used to send the literal "false")
+				okDenied = false
 			}
 		}
-		c.Check(R, "types.(*cors).configureOrigin/ACAO-table", u.Pos(), okStar && okFixed && okReflect && okDenied && len(acao) == 4,
-			keyf("'*'→*: %v; fixed string→itself: %v; allowed→request origin: %v; not allowed→never the origin: %v (%d ACAO sites)", okStar, okFixed, okReflect, okDenied, len(acao)))
+		c.Check(R, "types.(*cors).configureOrigin/ACAO-table", u.Pos(), okStar && okFixed && okReflect && okDenied && len(acao) == 3,
+			keyf("'*'→*: %v; fixed string→itself: %v; allowed→request origin: %v; no Access-Control-Allow-Origin on any other edge: %v (%d ACAO sites)", okStar, okFixed, okReflect, okDenied, len(acao)))
 		// Vary: none on the * edge; present on every other path
 		varyOK := len(vary) >= 2
 		for _, v := range vary {
